@@ -10,8 +10,8 @@ Open Scope list_scope.
 (* what a set does to the collector's caches *)
 Definition iset_step (s : ixstate) (f : ix_set) : ixstate :=
   match is_body f with
-  | IxTemplate t => {| ix_t := insert (it_id t) t (ix_t s); ix_o := ix_o s |}
-  | IxOTemplate t => {| ix_t := ix_t s; ix_o := insert (io_id t) t (ix_o s) |}
+  | IxTemplate t => {| ix_t := insert (it_id t) t (ix_t s); ix_o := remove (it_id t) (ix_o s) |}
+  | IxOTemplate t => {| ix_t := remove (io_id t) (ix_t s); ix_o := insert (io_id t) t (ix_o s) |}
   | _ => s
   end.
 
